@@ -63,7 +63,7 @@ Proof.
     destruct r as [[]|code| |]; cbn in *; auto; destruct P as (A & B & _); (split; [auto|eapply tab_frame_len; eauto]).
   - pose proof (VamHvStep2.allocation_unmap_inv c Hc Hmax Hlarge ms0 v slot HI) as P. destruct (allocation_unmap v slot) as (v' & r).
     destruct r as [[]|code| |]; cbn in *; auto; destruct P as (A & B & _); (split; [auto|eapply tab_frame_len; eauto]).
-  - pose proof (VamHvStep2.allocation_flush_inv c Hc Hmax Hlarge ms0 v inval slot off size HI) as P. destruct (allocation_flush c v inval slot off size) as (v' & r).
+  - pose proof (VamHvStep2.allocation_flush_inv c Hc Hmax Hlarge ms0 v inval slot off size (ca_atom c Ha) HI) as P. destruct (allocation_flush c v inval slot off size) as (v' & r).
     destruct r as [[]|code| |]; cbn in *; auto; destruct P as (A & B & _); (split; [auto|eapply tab_frame_len; eauto]).
   - pose proof (VamHvStep2.harness_rw_inv c Hc Hmax Hlarge ms0 v slot HI Hmap) as P. destruct (harness_rw c v slot) as (v' & r).
     destruct r as [[]|code| |]; cbn in *; auto; destruct P as (A & B & _); (split; [auto|eapply tab_frame_len; eauto]).
